@@ -34,12 +34,13 @@ class Obs(object):
     """What the script observed for one operation."""
     __slots__ = ('op', 'kind', 'value', 'exc', 'code', 'pulled_before', 'closed_before',
                  'state_before', 'step', 'extra', 'pulled_after', 'send_failed_during',
-                 'closes_sent', 'lost_before', 'while_closing')
+                 'closes_sent', 'lost_before', 'while_closing', 'refused_during')
 
     def __init__(self, op):
         self.op = op
         self.kind = None       # 'ok' | 'exc'
         self.while_closing = False
+        self.refused_during = False
         self.value = None
         self.exc = None
         self.code = None
@@ -134,6 +135,7 @@ class WsHarness(object):
                          lost_mode=cfg.get('lost_mode', 'oserror'))
         self.conn.fail_send_at = frozenset(cfg.get('fail_send_at', ()))
         self.conn.reject_close_codes = frozenset(cfg.get('reject_close_codes', ()))
+        self.conn.refuse_send_at = frozenset(cfg.get('refuse_send_at', ()))
 
     def note(self, name):
         self.ctx.probe(name)
@@ -154,6 +156,7 @@ class WsHarness(object):
                 o.lost_before = self.conn.lost
                 self.obs.append(o)
                 failed0 = self.conn.failed_sends + len(self.conn.dropped)
+                refused0 = self.conn.refused_sends
                 closes0 = self.monitor.closes
                 try:
                     stop = await self._do(op, o, ws)
@@ -178,6 +181,7 @@ class WsHarness(object):
                         self.disc_reported = True
                 o.pulled_after = self.conn.disconnect_pulled
                 o.send_failed_during = self.conn.failed_sends + len(self.conn.dropped) > failed0
+                o.refused_during = self.conn.refused_sends > refused0
                 o.closes_sent = self.monitor.closes - closes0
                 self.ctx.event('op', o.brief())
                 self.ctx.ops_done += 1
